@@ -16,6 +16,7 @@ class Cycles:
         self.sinks = {i['id']: i.get('ct', 0) for i in items if i['kind'] == 'sink'}
         self.cur = {d: None for d in self.devs}
         self.offset = {d: 0 for d in self.devs}
+        self.offset.update({k: 0 for k in self.sinks})
         self.oper = {d: True for d in self.devs}
         self.n_recv = self.n_script = self.n_shut = self.n_fin = 0
         self.n_cb_off = 0
@@ -71,10 +72,13 @@ class Cycles:
             self.n_recv += 1
             if did in self.sinks:
                 last = self.sink_last.get(did)
-                if last is not None and t - last < self.sinks[did]:
-                    ctx.report('sink_cycle', f'sink {did} (cycle {self.sinks[did]}) accepted parts at {last!r} and {t!r}')
+                if last is not None and t - last[0] < last[1]:
+                    ctx.report('sink_cycle', f'sink {did} (cycle time {last[1]!r} in effect at {last[0]!r}) accepted the next '
+                               f'part at {t!r}')
                     return
-                self.sink_last[did] = t
+                off = self.offset.get(did, 0)
+                self.offset[did] = 0
+                self.sink_last[did] = (t, max(0, ct_read + off))
                 ctx.count('sink_receipts_checked')
                 continue
             if did not in self.cur:
